@@ -11,6 +11,44 @@ def strip_refs(ans):
     return REF.sub("", ans).replace(" ", "_")
 
 
+ACCEPT = re.compile(r"(?:^| )accept=\[([^\]\s]*)\]")
+SYMFWD = re.compile(r"ok sym=(?:some:(\d+)|none) fwd=(?:some:([0-9a-f]+|-)@\S+|none)$")
+
+
+def accept_set(spec):
+    """the acceptable-answer set `accept=[a;b;…]` the model prints for a lookup by name (`Spec.acceptName`,
+    in the text of `spec=`); None when the operation carries none"""
+    m = ACCEPT.search(spec)
+    if not m:
+        return None
+    return m.group(1).split(";") if m.group(1) else []
+
+
+def in_accept(got, acc, named):
+    """membership of an answer (in the form of `strip_refs`) in the acceptable-answer set: a value, and an
+    error kind the statement names, literally; an error kind it does not name by class (some failure of an
+    unnamed kind is acceptable)"""
+    if got in acc:
+        return True
+    if got.startswith("err_") and got[4:] not in named:
+        return any(a.startswith("err_") and a[4:] not in named for a in acc)
+    return False
+
+
+def symfwd_as_lookup(impl):
+    """`ok sym=… fwd=…` (`Export::symbol()` / `Export::forward()` of a lookup's answer) in the form the
+    specification prints the lookup's answer; (text, None) or (None, complaint)"""
+    if not impl.startswith("ok "):
+        return strip_refs(impl), None
+    m = SYMFWD.match(impl)
+    if not m:
+        return None, "unparsable answer %s" % impl[:200]
+    sym, fwd = m.group(1), m.group(2)
+    if (sym is None) == (fwd is None):
+        return None, "symbol() and forward() must be Some for exactly one of them: %s" % impl[:200]
+    return ("ok_Symbol(%s)" % sym) if sym is not None else ("ok_Forward(%s)" % fwd), None
+
+
 def _items(s):
     return [x for x in s.split(";")] if s else []
 
@@ -72,7 +110,7 @@ class C08(Prop):
     named_errors = {"Null", "Bounds"}     # "a zero entry as null, an unknown name or out-of-range ordinal as null/bounds"
     pid = "C08"
     title = "export lookups agree with the export tables for every table shape"
-    thm_modules = ["PeliteModel.Thm.C08", "PeliteModel.Thm.ImageLayout"]
+    thm_modules = ["PeliteModel.Thm.C08", "PeliteModel.Thm.ImageLayout", "PeliteModel.Thm.C08Layout", "PeliteModel.Thm.Witnesses64"]
     gens = [gen_exports.gen_exports_corpus, gen_exports.gen_exports_shapes, gen_exports.gen_exports]
 
     def oracle(self, op, impl, model, spec):
@@ -84,21 +122,51 @@ class C08(Prop):
             # C01 obligation: every returned reference lies in the buffer and is aligned for its type
             return "reference outside the buffer or misaligned: %s" % impl[:300]
         if op.startswith("exports "):
+            w = op.split(" ")
+            m = re.match(r"(ok img=\S+ dll=\S+ base=\d+)( |$)", impl)
+            if len(w) == 3 and w[2] == "dump":
+                self.heads[w[1]] = m.group(1) if m and " by=ok " in impl else None
+            elif len(w) == 3 and w[2] == "by":
+                # `By` derefs to its `Exports` (the wrappers forward): header, library name and ordinal
+                # base asked of the `By` are what the directory itself answered in the preceding dump
+                head = self.heads.get(w[1])
+                if head is not None and impl != head:
+                    return "By::image/dll_name/ordinal_base answered %s, the directory itself %s" % (impl[:200], head[:200])
+                return None
             r = dump_consistent(impl)
             if r:
                 return "dump: " + r
             return None
+        w = op.split(" ")
+        if len(w) > 2 and w[2] == "symfwd":
+            got, bad = symfwd_as_lookup(impl)
+            if bad:
+                return "symfwd: " + bad
+        else:
+            got = strip_refs(impl)
+        # lookups by name on ANY table (sorted or not, duplicates or not): the answer is a member of the
+        # acceptable-answer set of the tables (C08_name_in_accept / _hint_name_ / _import_ / _get_export_)
+        acc = accept_set(spec)
+        if acc is not None and not in_accept(got, acc, self.named_errors):
+            return "lookup by name answered %s, which is none of the answers the export tables allow for that name: %s" % (
+                impl[:300], ";".join(acc)[:300])
         if spec_field(spec, "hyp") != "1":
             return None
         want = spec_field(spec, "spec")
         if want is None:
             return None
-        got = strip_refs(impl)
         if got != want:
             return "lookup answered %s, the export tables denote %s" % (impl[:300], want[:300])
         return None
 
+    def begin_case(self, case):
+        self.heads = {}
+
+    heads = {}
+
     def nontrivial(self, op, impl):
+        if op.startswith("exports ") and op.endswith(" by"):
+            return impl.startswith("ok img=")
         if op.startswith("exports "):
             return " by=ok F=[" in impl and " F=[]" not in impl
         return impl.startswith("ok ")
